@@ -197,7 +197,7 @@ BAD = ["", " ", "1.5x", "[1,", "{", "}", "]", "[1, 2", '{"k": }', "{a: 1", "- x"
 
 GOODPAIRS = {
     "flat": [("i", ["1", "-3", "0"]), ("f", ["2.5", "1", "1e3"]), ("s", ["abc", "1", "null", ""]), ("b", ["true", "false"]), ("li", ["[1, 2]", "[]"]), ("li+", ["3", "[4]"]), ("d", ['{"k": 1}', "{}"]),
-             ("d.k", ["2"]), ("oe", ["red", "null"]), ("t", ['[1, "a"]']), ("u", ["1", '["a"]', '{"k": 1.5}']), ("any", ["1", "x", "[1]", '{"a": 1}']), ("cfg", ["@D@/ok.yaml", '{"i": 5}'])],
+             ("d.k", ["2"]), ("oe", ["red", "null"]), ("t", ['[1, "a"]']), ("u", ["1", '["a"]', '{"k": 1.5}']), ("any", ["1", "x", "[1]", '{"a": 1}', '{"class_path": "a.b.C", "init_args": {"x": 1}}', '{"class_path": "zz.q", "init_args": {"x": 2}}', '{"class_path": "a.b.C", "init_args": {"x": 1}}']), ("cfg", ["@D@/ok.yaml", '{"i": 5}'])],
     "groups": [("g.x", ["1"]), ("g.h.y", ["2"]), ("dc", ['{"inner": {"a": 3}}', "{}"]), ("dc.inner", ['{"a": 2, "b": ["x"]}']), ("dc.inner.a", ["4"]), ("dc.inner.b", ['["x"]']), ("dc.inner.b+", ["y"]),
                ("dc.items", ['{"k": {"a": 1}}']), ("dc.lst", ['[{"a": 1}]', "[]"]), ("dc.lst+", ['{"a": 1}']), ("dc.opt", ['{"a": 1}', "null"]), ("req", ["r", "x"]), ("req", ["r"]), ("req", ["r"]), ("cfg", ["@D@/ok.yaml"])],
     "classes": [("m", ["SubA", FX + "SubB", '{"class_path": "SubA", "init_args": {"p": 5}}', '{"init_args": {"p": 7}}']), ("m.init_args.p", ["4"]), ("m.p", ["4"]), ("m.class_path", ["SubB"]), ("m.dict_kwargs.z", ["1"]),
@@ -270,8 +270,16 @@ def prepare_files(d):
         f.write("1\n2\nx\n")
     with open(os.path.join(d, "bin.yaml"), "wb") as f:
         f.write(b"\xff\xfei: 1\n")  # not valid UTF-8
+    for name, content in DCF_VARIANTS.items():
+        if content is None:
+            os.mkdir(os.path.join(d, f"dcf_{name}.yaml"))
+        else:
+            with open(os.path.join(d, f"dcf_{name}.yaml"), "wb") as f:
+                f.write(content)
 
 
+DCF_VARIANTS = {"empty-map": b"{}\n", "unknown-key": b"zz_unknown: 1\n", "binary": b"\xff\xfei: 1\n", "broken": b"i: [1,\n  {", "scalar": b"5\n", "list": b"- 1\n",
+                "null": b"null\n", "ill-typed": b"cfg: 5\ni: x\nx: x\ntop: x\nsrc: x\nreq: [1]\nct: 3\n", "dir": None}
 PLACEHOLDER = "@D@"  # cases are stored with the scratch directory abstracted away, so that replays are location independent
 
 
@@ -326,7 +334,11 @@ def case_strategy():
                 lambda t: {"shape": shape, "channel": t[2], "eoe": t[1], "input": t[0] if t[2] == "string" else json.loads(t[0])})
             allc = st.one_of(allc, allc, allc, allc, whole)
         # every parse method documents a ``defaults`` flag: one case in six is parsed without the parser's defaults
-        return st.tuples(allc, st.integers(0, 5)).map(lambda t: dict(t[0], nodefaults=True) if t[1] == 0 else t[0])
+        allc = st.tuples(allc, st.integers(0, 5)).map(lambda t: dict(t[0], nodefaults=True) if t[1] == 0 else t[0])
+        # ... and one in eight has a default config file of the parser that is fine, unreadable, ill-formed or ill-typed
+        allc = st.tuples(allc, st.integers(0, 7), st.sampled_from(sorted(DCF_VARIANTS))).map(lambda t: dict(t[0], dcf=t[2]) if t[1] == 0 else t[0])
+        # ... and one in ten is read by a parser in json mode (what is not JSON is then simply a string or an error)
+        return st.tuples(allc, st.integers(0, 9)).map(lambda t: dict(t[0], pmode="json") if t[1] == 0 else t[0])
 
     per_shape = {sh: one(sh) for sh in SHAPES}  # built once: strategy construction is the expensive part
     return st.sampled_from(SHAPES).flatmap(lambda sh: per_shape[sh])
@@ -403,6 +415,10 @@ def execute(case, d):
 
     inp = subst(case["input"], d)
     p = build(case["shape"], case["eoe"])
+    if case.get("dcf"):
+        p.default_config_files = [os.path.join(d, f"dcf_{case['dcf']}.yaml")]
+    if case.get("pmode"):
+        p.parser_mode = case["pmode"]
     ch = case["channel"]
     old_stdin, old_cwd, old_env = sys.stdin, os.getcwd(), dict(os.environ)
     sys.stdin = io.StringIO("")
@@ -541,6 +557,10 @@ def run_case(ctx, case):
     ctx.cls(f"channel:{case['channel']}")
     if case.get("nodefaults"):
         ctx.cls("parsed-with-defaults=False")
+    if case.get("dcf"):
+        ctx.cls("default-config-file:" + case["dcf"])
+    if case.get("pmode"):
+        ctx.cls("parser_mode:" + case["pmode"])
     ctx.cls(f"outcome:{kind}" + (f":{detail[0]}" if kind == "exit" else ""))
     if follow is not None and verdict is None:
         ctx.cls(f"follow-up:{case['then']}:{follow[0]}" + (f":{follow[1][0]}" if follow[0] == "exit" else ""))
